@@ -394,7 +394,19 @@ func checkEmptinessPredicate(w *World, c *Check, t *tables) {
 						switch in.(type) {
 						case *ssa.BinOp, *ssa.Call, *ssa.UnOp:
 							for _, hold := range []bool{true, false} {
-								for _, g := range pr.classifyCond(v, hold) {
+								// for _, it := range [...]Item{o.A, o.B, …} { if it != nil … }: the test applies to every listed field
+								gs := substGuards(pr, pr.classifyCond(v, hold), func(x ssa.Value) []FieldPath {
+									elems, _, isLit := rangedLiteralElemOpt(x, false)
+									if !isLit {
+										return nil
+									}
+									var out []FieldPath
+									for _, e := range elems {
+										out = append(out, pr.prov(e).list()...)
+									}
+									return out
+								})
+								for _, g := range gs {
 									if g.side != sideSet || g.signOnly {
 										continue
 									}
@@ -1249,13 +1261,44 @@ func checkNothingInvented(w *World, c *Check, t *tables, rule string) {
 		}
 		return doc, other
 	}
+	// the loaders: JSONLoad* / JSONUnmarshalTo* and the package functions they hand the document to (a loader split into
+	// per-group helpers taking (val, o) is still the loader)
+	loaderUnit := map[*ssa.Function]bool{}
+	{
+		var roots []*ssa.Function
+		for _, f := range w.Funcs {
+			if f.Parent() == nil && (strings.HasPrefix(f.Name(), "JSONLoad") || strings.HasPrefix(f.Name(), "JSONUnmarshalTo")) {
+				roots = append(roots, f)
+			}
+		}
+		takesDoc := func(g *ssa.Function) bool {
+			for _, p := range g.Params {
+				if isDocType(p.Type()) {
+					return true
+				}
+			}
+			return false
+		}
+		for _, g := range w.Reach(roots, func(g *ssa.Function) bool { return g.Parent() == nil && !takesDoc(g) }) {
+			if g.Parent() == nil && takesDoc(g) {
+				// a getter hands a value back; a loader (or a part of one) fills what it is given and returns nothing or an error
+				res := g.Signature.Results()
+				if res.Len() == 0 || (res.Len() == 1 && isErrorType(res.At(0).Type())) || strings.HasPrefix(g.Name(), "JSONLoad") {
+					loaderUnit[g] = true
+				}
+			}
+		}
+		for _, r := range roots {
+			loaderUnit[r] = true
+		}
+	}
 	n := 0
 	for _, f := range w.Funcs {
 		root := f
 		for root.Parent() != nil {
 			root = root.Parent()
 		}
-		if !strings.HasPrefix(root.Name(), "JSONLoad") && !strings.HasPrefix(root.Name(), "JSONUnmarshalTo") {
+		if !loaderUnit[root] {
 			continue
 		}
 		cnt := map[string]int{}
@@ -1303,7 +1346,7 @@ func checkNothingInvented(w *World, c *Check, t *tables, rule string) {
 		for root.Parent() != nil {
 			root = root.Parent()
 		}
-		if !strings.HasPrefix(root.Name(), "JSONLoad") && !strings.HasPrefix(root.Name(), "JSONUnmarshalTo") {
+		if !loaderUnit[root] {
 			continue
 		}
 		nc := 0
